@@ -57,7 +57,7 @@ CHECKS = {
          "For generated (K, T over every residue mod 8/16/32/64, data pairs, scalar, construction): pkt(A^B)=pkt(A)^pkt(B), pkt(cA)=c*pkt(A) (c* from the polynomial multiplier), byte j of pkt_T = pkt_1 of column j; decoding outcome and bytes independent of T for the same ESI set.",
          "Metamorphic relations need no reference; scalar multiplication uses the reference multiplier.",
          "DESIGN.md 5/C09"),
- "C18": ("metamorphic/structural proptest over repair windows and plan instances",
+ "C18": ("metamorphic/structural proptest over repair windows (short, and longer than 2^16 / 2^17 packets) and plan instances",
          "Generated windows (incl. ending at ESI 2^24-1), overlapping window pairs, plan instances and multi-block objects: window == singles, overlaps agree, IDs (block, K+s+i), payload == reference Enc over the encoder's intermediate symbols, encoders from equal plans ==, object packet list structure.",
          "Sampled; ties to the RFC symbol through C04's certified intermediate symbols.",
          "DESIGN.md 5/C18"),
